@@ -143,6 +143,15 @@ func runC18(cfg *config, res *monitor.Result) {
 		for i := 0; i < nvals; i++ {
 			cases = append(cases, g.Random(t.md))
 		}
+		// values whose strings are significant to JSON syntax, in a fixed order (a value ending in a backslash first,
+		// then values holding ", " / ":  " / quotes / braces), on top of two random values
+		for k := 0; k < 2; k++ {
+			tv := g.Random(t.md)
+			if trickyStrings(tv.Msg.ProtoReflect(), new(int), 0) >= 2 {
+				tv.Class = "json-syntax-strings"
+				cases = append(cases, tv)
+			}
+		}
 		for ci, c := range cases {
 			d := c.Msg
 			fixWKT(d.ProtoReflect(), 0)
@@ -404,4 +413,55 @@ func fixWKT(m protoreflect.Message, depth int) {
 		}
 		return true
 	})
+}
+
+var jsonTricky = []string{"C:\\protos\\", "Doe, John", "k:  v", "\"quoted\"", "tail\\\\", "a, b:  c", "{\"x\": 1}", "[1, 2]", "back\\", ", ", "null", ":  "}
+
+// trickyStrings overwrites every string value of m (fields, list elements, map values; recursively, in field
+// number order) with the next entry of jsonTricky; returns how many it set. Well-known types are left alone.
+func trickyStrings(m protoreflect.Message, next *int, depth int) int {
+	if depth > 4 || m.Descriptor().ParentFile().Package() == "google.protobuf" {
+		return 0
+	}
+	n := 0
+	take := func() protoreflect.Value {
+		v := jsonTricky[*next%len(jsonTricky)]
+		*next++
+		n++
+		return protoreflect.ValueOfString(v)
+	}
+	fds := m.Descriptor().Fields()
+	for i := 0; i < fds.Len(); i++ {
+		fd := fds.Get(i)
+		if !m.Has(fd) {
+			continue
+		}
+		switch {
+		case fd.IsMap():
+			mp := m.Mutable(fd).Map()
+			var keys []protoreflect.MapKey
+			mp.Range(func(k protoreflect.MapKey, _ protoreflect.Value) bool { keys = append(keys, k); return true })
+			for _, k := range keys {
+				if fd.MapValue().Kind() == protoreflect.StringKind {
+					mp.Set(k, take())
+				} else if fd.MapValue().Kind() == protoreflect.MessageKind {
+					n += trickyStrings(mp.Get(k).Message(), next, depth+1)
+				}
+			}
+		case fd.IsList():
+			l := m.Mutable(fd).List()
+			for k := 0; k < l.Len() && k < 8; k++ {
+				if fd.Kind() == protoreflect.StringKind {
+					l.Set(k, take())
+				} else if fd.Kind() == protoreflect.MessageKind {
+					n += trickyStrings(l.Get(k).Message(), next, depth+1)
+				}
+			}
+		case fd.Kind() == protoreflect.StringKind:
+			m.Set(fd, take())
+		case fd.Kind() == protoreflect.MessageKind:
+			n += trickyStrings(m.Mutable(fd).Message(), next, depth+1)
+		}
+	}
+	return n
 }
